@@ -6,7 +6,10 @@ package main
 import (
 	"fmt"
 	"hash/fnv"
+	"os"
 )
+
+var c20Debug = os.Getenv("VERIF_C20_DEBUG") != ""
 
 func c20Run(sc *Scenario, st *Stats) []Violation {
 	l := NewLog()
@@ -21,12 +24,33 @@ func c20Run(sc *Scenario, st *Stats) []Violation {
 	var allocOp byte
 	var allocCost uint64
 	var allocMem int
+	var jN, jCost, jAlloc uint64
 	closeAlloc := func() {
 		if !allocOpen {
 			return
 		}
 		allocOpen = false
-		if d := memTotalAlloc() - allocStart; d > allocBudget(allocCost, allocMem) {
+		d := memTotalAlloc() - allocStart
+		if c20Debug && d > 8192+64*allocCost+2*uint64(allocMem) {
+			if f, err := os.OpenFile(fmt.Sprintf("/tmp/c20dbg.%d", os.Getpid()), os.O_APPEND|os.O_CREATE|os.O_WRONLY, 0644); err == nil {
+				fmt.Fprintf(f, "c20dbg op=%02x cost=%d mem=%d alloc=%d excess=%d\n", allocOp, allocCost, allocMem, d, d-64*allocCost-2*uint64(allocMem))
+				f.Close()
+			}
+		}
+		budget := allocBudget(allocCost, allocMem)
+		if allocOp >= 0xe0 && allocOp <= 0xe6 {
+			// a growing map or slice legitimately re-allocates up to about twice what the
+			// journal has allocated so far in one step (amortised constant); the amortised
+			// rule at the end of the transaction bounds the total. (0xe7's long-string loop
+			// is the subject of C20.reads.)
+			budget += 2 * jAlloc
+			jN++
+			jCost += allocCost
+			if m := 2 * uint64(allocMem); d > m {
+				jAlloc += d - m
+			}
+		}
+		if d > budget {
 			vs = append(vs, Violation{Prop: "C20", Rule: "C20.alloc", Sig: siteOfOp(allocOp), Seq: allocSeq,
 				Msg: fmt.Sprintf("instruction %s (cost %d gas, memory %d bytes) made the VM allocate %d bytes before the next instruction", siteOfOp(allocOp), allocCost, allocMem, d)})
 		}
@@ -53,6 +77,22 @@ func c20Run(sc *Scenario, st *Stats) []Violation {
 		switch e.K {
 		case evTxDone:
 			closeAlloc()
+			if jN > 0 {
+				if c20Debug && jN > 100 {
+					if f, err := os.OpenFile(fmt.Sprintf("/tmp/c20dbg.%d", os.Getpid()), os.O_APPEND|os.O_CREATE|os.O_WRONLY, 0644); err == nil {
+						fmt.Fprintf(f, "c20dbg amortised n=%d cost=%d alloc=%d\n", jN, jCost, jAlloc)
+						f.Close()
+					}
+				}
+				if jAlloc > 1<<20+16*jCost {
+					vs = append(vs, Violation{Prop: "C20", Rule: "C20.alloc", Sig: "journal-amortised", Seq: e.Seq,
+						Msg: fmt.Sprintf("the %d journal instructions of one transaction paid %d gas in total and made the VM allocate %d bytes beyond twice the memory size (allowed: 1 MiB + 16 bytes per gas): work per flat-fee instruction grows with what was journaled before", jN, jCost, jAlloc)})
+				}
+				if jN >= 1000 {
+					l.Probe("thousand-journal-instructions-in-one-transaction")
+				}
+			}
+			jN, jCost, jAlloc = 0, 0, 0
 		case evTxBegin:
 			env.DB.Reads = 0
 			env.DB.ReadBudget = readBudget(0)
